@@ -8,7 +8,9 @@ how the VMs store definitions.
 * `BaseVisible t` — everything the base resolves is resolvable through every TempVM.
 * set-based bookkeeping: `offered d v ops` is the set of (kind, name) pairs that the
   history `ops` *offered through* VM `v` (the stub handed to `AddX`, the declarations
-  of a file loaded / parsed / autoloaded through `v`; a discard forgets what was
+  of a file loaded / parsed / included / autoloaded through `v`, of a string handed to
+  `eval()` by a script running on `v`, a function statement executed by such a script;
+  a discard forgets what was
   offered through that TempVM). `Bounded` says a table resolves nothing that was not
   offered through its own VM or through the base — "no foreign definitions".
 
@@ -39,15 +41,24 @@ def declsOf (d : Disk) (f : Nat) : List (Kind × Name) :=
   | some ds => ds.map (fun dc => (dc.kind, dc.name))
   | none => []
 
+/-- what an autoload of `n` can define: the declarations of its class-path file, or — when
+the class path has none — of the files the autoload callbacks include for `n` -/
+def autoOffers (d : Disk) (n : Name) : List (Kind × Name) :=
+  match d.find n with
+  | some f => declsOf d f
+  | none => d.cbs.flatMap (fun a => match a n with | some f => declsOf d f | none => [])
+
 /-- the definitions an operation can make -/
 def offers (d : Disk) : Op → List (Kind × Name)
   | .add _ k n _ => [(k, n)]
   | .loadAndRun _ f | .parseFile _ f => declsOf d f
-  | .getOrLoadClass _ n | .getOrLoadInterface _ n | .loadPkg _ n =>
-    match d.find n with
-    | some f => declsOf d f
-    | none => []
+  | .getOrLoadClass _ n | .getOrLoadInterface _ n | .loadPkg _ n => autoOffers d n
   | .discard _ => []
+  | .evalCode _ u _ => declsOf d u
+  | .incl _ f _ => declsOf d f
+  | .runFn _ n _ => [(.fn, n)]
+  | .useClass _ n _ => autoOffers d n
+  | .autoReg _ _ | .define _ _ | .alias _ _ _ | .inert _ => []
 
 /-- one step of the bookkeeping for VM `v` -/
 def offeredStep (d : Disk) (v : VMId) (acc : List (Kind × Name)) (op : Op) : List (Kind × Name) :=
